@@ -424,11 +424,11 @@ def _lzw(model: Model, rep: Report, rid: str = "C03-R7") -> None:
     r7.check("v=v<<bits|self.buff>>r-bits&(1<<bits)-1" in s2 and "v=v<<r|self.buff&(1<<r)-1" in s2 and "r=8-self.bpos" in s2, site(rb), rb.qualname, "codes are read most significant bit first across byte boundaries", why="bit reader changed")
 
 
-def _simple_decoders(model: Model, rep: Report) -> None:
-    """C03-R8: the byte-oriented decoders' constants and case split (ISO 32000-1 7.4.2, 7.4.3, 7.4.5)."""
+def _simple_decoders(model: Model, rep: Report, rid: str = "C03-R8") -> None:
+    """C03-R8 (= C18-R18): the byte-oriented decoders' constants and case split (ISO 32000-1 7.4.2, 7.4.3, 7.4.5)."""
     from ..fold import Folder, Regex, Unfoldable
 
-    r8 = rep.rule("C03-R8", "TABLE", "RunLength: 0..127 copies length+1 bytes, 129..255 repeats one byte 257-length times, 128 (or exhaustion) ends; ASCIIHex: white space ignored, `>` ends, odd digit padded with 0; ASCII85 markers are stripped only at the ends", 7)
+    r8 = rep.rule(rid, "TABLE", "RunLength: 0..127 copies length+1 bytes, 129..255 repeats one byte 257-length times, 128 (or exhaustion) ends; ASCIIHex: white space ignored, `>` ends, odd digit padded with 0; ASCII85 markers are stripped only at the ends", 7)
     rl = model.func("pdfminer.runlength.rldecode")
     se = SymEval(opaque_ok=True)
     L = Poly.var("length")
